@@ -157,6 +157,26 @@ def run_job(job):
                     res.cover("quoted", str(quoted))
                     if 0 < len(exp) < len(files):
                         res.nt("%s|%s|%s|%s" % (tz, lit if not relative else lit + "@" + str(day0), op, quoted))
+            # x between L1 and L2  ==  x >= L1 and x <= L2  (start of the first interval .. end of the second)
+            if not relative:
+                t2 = a + datetime.timedelta(seconds=rng.choice([0, 1, 59, 3600, 86400, 40 * 86400]))
+                lit2 = render_literal(rng, t2, rng.choice(["day", "hour", "minute", "second"]))
+                iv2 = model.date_interval(lit2, tz)
+                if iv2 is not None:
+                    qb = "name from d%d where modified between %s and %s into list" % (li, model.quote_lit(lit), model.quote_lit(lit2))
+                    rb = runner.run([qb], cwd=w, home=home, tz=tz)
+                    res.ev()
+                    if rb.verdict == "ok" and rb.rc == 0 and not rb.err:
+                        gotb = set(rb.rows())
+                        expb = set(n for n, t_ in files.items() if a <= t_ <= iv2[1])
+                        if gotb != expb:
+                            res.viol("`modified between '%s' and '%s'` (TZ=%s): +%s -%s" % (lit, lit2, tz,
+                                     [model.fmt_dt(files[x]) for x in sorted(gotb - expb)][:3], [model.fmt_dt(files[x]) for x in sorted(expb - gotb)][:3]),
+                                     {"query": qb, "tz": tz})
+                        else:
+                            res.count("date_between_checked")
+                    elif rb.verdict == "ok":
+                        res.viol("`%s`: status %s stderr %r" % (qb, rb.rc, rb.err[:120]), {"query": qb, "result": rb.brief()})
             if all(o in per_op for o in ("<", "=", ">")):
                 for n in files:
                     k = sum(1 for o in ("<", "=", ">") if n in per_op[o])
